@@ -755,6 +755,10 @@ def analyse(program, log, verdict, thread_errors=()):
             if low < mn:
                 v.append(Violation("C10", "lower-bound", "fewer-than-min",
                                    "only %d worker(s) alive between start() and stop() with min_threads=%d" % (low, mn)))
+                if any(sr <= a for sc, sr in h.stops):
+                    # the same shortfall in a window that follows a stop(): the restarted pool is not a fresh one
+                    v.append(Violation("C11", "restart-fresh", "fewer-than-min-after-restart",
+                                       "only %d worker(s) alive after stop() + start() with min_threads=%d" % (low, mn)))
                 break
 
     # ---- C10: growth / progress ------------------------------------------------
